@@ -1114,5 +1114,20 @@ def rule_specified(ctx):
     return r
 
 
+def _shared_rules():
+    """The model's predictions equal the figures of the sliced tree only if the tree's own slicing arithmetic follows the same definitions."""
+    out = []
+
+    def _mk(src_mod="c04", fn="rule_arith", old="C04-ARITH", new="C07-TREEARITH", mn=3):
+        def rule(ctx):
+            import importlib
+            srcf = getattr(importlib.import_module("sa.rules." + src_mod), fn)
+            return C.reuse_rule(ctx, srcf, old, new, "shared clause of " + old + " (also a necessary condition here)", lambda i: True, mn)
+        rule.__name__ = "shared_" + new.lower().replace("-", "_")
+        return rule
+    out.append(_mk())
+    return out
+
+
 RULES = [rule_forbid, rule_filter, rule_agree, rule_apply, rule_model, rule_intcost, rule_arith, rule_modelcopy,
-         rule_modes, rule_specified]
+         rule_modes, rule_specified] + _shared_rules()
